@@ -2,6 +2,7 @@
    [exact lemma] and Print Assumptions. *)
 From V Require Import Common.Base C01.Utf C01.Quote C01.SpecLiteral C01.QuoteProofs.
 From V Require Import C01.Num C01.SpecNumeric C01.NumProofs C01.NumProofs2 C01.ScriptProofs.
+From V Require Import C13.Token C13.ParseSpec C01.CommaTrace.
 
 (* printQuotedUTF16: for EVERY sequence of UTF-16 code units (lone surrogates
    included), every configuration (charset, unicode-escape support,
@@ -122,3 +123,34 @@ Theorem print_number_literal_value : forall (FormatFloat : Z -> bytes),
     value_preserved out (FormatFloat bits) \/ exists v, float_int bits = Some v /\ mv out = Some (v, 0).
 Proof. exact print_number_literal_value_all. Qed.
 Print Assumptions print_number_literal_value.
+
+(* ---- expressions: the C01 side of C13's print_parse_roundtrip ---- *)
+
+(* C13 proves that printing then parsing a tree gives back [norm tree] (comma
+   re-nesting).  [norm] preserves behaviour: in EVERY compositional semantics
+   of the tree type in which `l , r` is "evaluate l, GetValue, evaluate r,
+   GetValue" (ECMA-262 13.16.1) and GetValue is idempotent, a tree and its
+   normal form have the same meaning (value, final state, failure). *)
+Theorem norm_preserves_meaning :
+  forall (S V : Type) m_id m_num m_re m_dot m_un m_bin m_cond m_index,
+  (forall f f' s, den_eq S V f f' -> den_eq S V (m_dot f s) (m_dot f' s)) ->
+  (forall o f f', den_eq S V f f' -> den_eq S V (m_un o f) (m_un o f')) ->
+  (forall o f f' g g', den_eq S V f f' -> den_eq S V g g' -> den_eq S V (m_bin o f g) (m_bin o f' g')) ->
+  (forall c c' y y' n n', den_eq S V c c' -> den_eq S V y y' -> den_eq S V n n' ->
+     den_eq S V (m_cond c y n) (m_cond c' y' n')) ->
+  (forall f f' g g', den_eq S V f f' -> den_eq S V g g' -> den_eq S V (m_index f g) (m_index f' g')) ->
+  forall getvalue : V -> S -> option (V * S),
+  (forall v s w s', getvalue v s = Some (w, s') -> getvalue w s' = Some (w, s')) ->
+  forall e, den_eq S V (meaning S V m_id m_num m_re m_dot m_un m_bin m_cond m_index getvalue (norm e))
+                       (meaning S V m_id m_num m_re m_dot m_un m_bin m_cond m_index getvalue e).
+Proof. exact norm_meaning_all. Qed.
+Print Assumptions norm_preserves_meaning.
+
+(* instance: a left-to-right trace semantics with a variable store, Read /
+   Write / GetProp / GetIndex events, References and GetValue, simple, compound
+   and logical assignment, short-circuit && || ??, conditional, ++/--,
+   arithmetic with failing division: for every tree and every initial state,
+   the same value, the same final store and the same event trace (or both fail) *)
+Theorem norm_preserves_trace : forall e s, trace_eval (norm e) s = trace_eval e s.
+Proof. exact norm_trace_all. Qed.
+Print Assumptions norm_preserves_trace.
